@@ -2165,7 +2165,8 @@ def permute_pauli_symbol(symbol: str, ids: List[int]) -> str:
     assert len(symbol) == len(ids)
     pauli_indices = convert_pauli_symbol_to_pauli_indices(symbol)
     matP = get_permutation_matrix_from_ascending_order(ids)
-    pauli_indices_permuted = matP @ np.array(pauli_indices)  # .to_list()
+    # the symbol of ids[j] goes to the position of ids[j] in ascending order
+    pauli_indices_permuted = matP.T @ np.array(pauli_indices)  # .to_list()
     symbol_permuted = convert_pauli_indices_to_pauli_symbol(pauli_indices_permuted)
     return symbol_permuted
 
